@@ -52,6 +52,15 @@ fn operands4(ev: Ev) -> [&'static str; 4] {
     }
 }
 
+fn operands5(ev: Ev) -> [&'static str; 4] {
+    // everyday conversions written out (degrees to radians, percentages): X*pi/180, X/100*15
+    match ev {
+        Ev::I64 => ["57", "100", "15", "3"],
+        Ev::Cpx => ["3", "pi", "180", "i"],
+        _ => ["3", "pi", "180", "57"],
+    }
+}
+
 fn operands(ev: Ev) -> [&'static str; 4] {
     match ev {
         Ev::I64 => ["2", "3", "5", "7"],
@@ -129,7 +138,8 @@ impl Space {
             0 => operands(self.ev),
             1 => operands2(self.ev),
             2 => operands3(self.ev),
-            _ => operands4(self.ev),
+            3 => operands4(self.ev),
+            _ => operands5(self.ev),
         };
         let mut s = String::new();
         for i in 0..=self.k {
@@ -162,6 +172,7 @@ fn spaces(sub: &str, tier: Tier) -> Vec<Space> {
             v.push(Space { alt: 1, ev, k, ops: BinOp::for_ev(ev), decs: decorations(ev, if k == 1 { 2 } else { 1 }), groups: groupings(k) });
             v.push(Space { alt: 2, ev, k, ops: BinOp::for_ev(ev), decs: decorations(ev, if k == 1 { 2 } else { 1 }), groups: groupings(k) });
             v.push(Space { alt: 3, ev, k, ops: BinOp::for_ev(ev), decs: decorations(ev, if k == 1 { 2 } else { 1 }), groups: groupings(k) });
+                        v.push(Space { alt: 4, ev, k, ops: BinOp::for_ev(ev), decs: decorations(ev, if k == 1 { 2 } else { 1 }), groups: groupings(k) });
         }
     }
     v
